@@ -24,10 +24,13 @@
 #include <fcppt/parse/basic_stream_fwd.hpp>
 #include <fcppt/parse/as_struct.hpp>
 #include <fcppt/parse/basic_string.hpp>
+#include <fcppt/parse/blank.hpp>
+#include <fcppt/parse/blank_set.hpp>
 #include <fcppt/parse/construct.hpp>
 #include <fcppt/parse/convert.hpp>
 #include <fcppt/parse/convert_const.hpp>
 #include <fcppt/parse/convert_if.hpp>
+#include <fcppt/parse/digits.hpp>
 #include <fcppt/parse/epsilon.hpp>
 #include <fcppt/parse/error.hpp>
 #include <fcppt/parse/fail.hpp>
@@ -46,12 +49,16 @@
 #include <fcppt/parse/make_lexeme.hpp>
 #include <fcppt/parse/make_recursive.hpp>
 #include <fcppt/parse/named.hpp>
+#include <fcppt/parse/parse.hpp>
+#include <fcppt/parse/parse_stream.hpp>
 #include <fcppt/parse/parse_string.hpp>
 #include <fcppt/parse/phrase_parse_stream.hpp>
 #include <fcppt/parse/phrase_parse_string.hpp>
 #include <fcppt/parse/result.hpp>
 #include <fcppt/parse/separator.hpp>
+#include <fcppt/parse/space.hpp>
 #include <fcppt/parse/space_set.hpp>
+#include <fcppt/parse/detail/stream_impl.hpp>
 #include <fcppt/parse/tag.hpp>
 #include <fcppt/parse/uint.hpp>
 #include <fcppt/parse/operators/alternative.hpp>
@@ -357,7 +364,10 @@ enum class NK
   ref,
   con,
   ast,
-  cst
+  cst,
+  spc,
+  blk,
+  dig
 };
 
 struct node_desc
@@ -378,7 +388,8 @@ constexpr node_desc node_table[] = {
     {"named", NK::named, 1, false}, {"rec", NK::rec, 1, false},     {"conv", NK::conv, 1, true},
     {"cif", NK::cif, 1, true},      {"sep", NK::sep, 2, false},     {"list", NK::list, 4, false},
     {"ref", NK::ref, 0, true},      {"float", NK::float_, 0, false},{"con", NK::con, 1, true},
-    {"ast", NK::ast, 1, true},      {"cst", NK::cst, 1, true}};
+    {"ast", NK::ast, 1, true},      {"cst", NK::cst, 1, true},      {"spc", NK::spc, 0, false},
+    {"blk", NK::blk, 0, false},     {"dig", NK::dig, 0, false}};
 
 struct Node
 {
@@ -490,8 +501,10 @@ parse_expr(std::vector<std::string> const &toks, std::size_t &pos, Ast &ast, uns
     break;
   }
   case NK::cst:
-    // i<digits> (at most 4) or c<char>
+    // i<digits> (at most 4), c<char> or s<chars>
     if (param.size() == 2 && param[0] == 'c')
+      n.param = param;
+    else if (!param.empty() && param[0] == 's')
       n.param = param;
     else if (param.size() >= 2 && param.size() <= 5 && param[0] == 'i')
     {
@@ -754,10 +767,36 @@ public:
       });
     }
     case NK::cst:
-      return this->add(fp::convert_const{
-          fp::make_ignore(kid(0)),
-          n.param == "i" ? Val::integer(static_cast<long long>(n.num))
-                         : Val::ch(cv_ch<Ch>(decode_char<Ch>(n.param[1])).n)});
+    {
+      Val constant{Val::unit()};
+      if (n.param == "i")
+        constant = Val::integer(static_cast<long long>(n.num));
+      else if (n.param[0] == 'c')
+        constant = cv_ch<Ch>(decode_char<Ch>(n.param[1]));
+      else
+      {
+        // a constant that owns memory: a repetition must get a fresh copy every time
+        std::vector<Val> chars;
+        for (char const c : n.param.substr(1))
+          chars.push_back(cv_ch<Ch>(decode_char<Ch>(c)));
+        constant = Val::list(std::move(chars));
+      }
+      return this->add(fp::convert_const{fp::make_ignore(kid(0)), std::move(constant)});
+    }
+    case NK::spc:
+      if constexpr (std::is_same_v<Ch, char>)
+        return this->add(fp::make_convert(fp::space(), &cv_ch<Ch>));
+      else
+        return this->add(
+            fp::make_convert(fp::basic_char_set<Ch>{fp::space_set<Ch>()}, &cv_ch<Ch>));
+    case NK::blk:
+      if constexpr (std::is_same_v<Ch, char>)
+        return this->add(fp::make_convert(fp::blank(), &cv_ch<Ch>));
+      else
+        return this->add(
+            fp::make_convert(fp::basic_char_set<Ch>{fp::blank_set<Ch>()}, &cv_ch<Ch>));
+    case NK::dig:
+      return this->add(fp::make_convert(fp::digits<Ch>(), &cv_ch<Ch>));
     }
     std::abort();
   }
@@ -779,7 +818,11 @@ private:
   template <typename Parser>
   base_t const &add(Parser &&_parser)
   {
-    this->nodes_.push_back(fp::make_base<Ch, Sk>(std::forward<Parser>(_parser)));
+    // both ways of hiding a parser's type: the free function and the static member of grammar
+    if (this->nodes_.size() % 2U == 0U)
+      this->nodes_.push_back(fp::make_base<Ch, Sk>(std::forward<Parser>(_parser)));
+    else
+      this->nodes_.push_back(fp::grammar<Val, Ch, Sk>::make_base(std::forward<Parser>(_parser)));
     return *this->nodes_.back().get_pointer();
   }
 
@@ -875,10 +918,23 @@ private:
   {
     std::basic_istringstream<Ch> stream{std::move(_input)};
     stream.unsetf(std::ios_base::skipws);
-    fp::result<Ch, Val> res{
-        this->entry_ == 's'
-            ? fp::phrase_parse_stream(this->worlds_.get().start(), stream, this->skipper_)
-            : fp::grammar_parse_stream(stream, this->grammar_)};
+    fp::result<Ch, Val> res{[&]() -> fp::result<Ch, Val> {
+      if constexpr (std::is_same_v<Sk, fsk::epsilon>)
+      {
+        if (this->entry_ == 'q')
+        {
+          // fcppt::parse::parse on a basic_stream
+          fp::detail::stream<Ch> state{fcppt::make_ref(
+              static_cast<std::basic_istream<Ch> &>(stream))};
+          return fp::parse(this->worlds_.get().start(), state);
+        }
+        if (this->entry_ == 't')
+          return fp::parse_stream(this->worlds_.get().start(), stream);
+      }
+      return this->entry_ == 's'
+                 ? fp::phrase_parse_stream(this->worlds_.get().start(), stream, this->skipper_)
+                 : fp::grammar_parse_stream(stream, this->grammar_);
+    }()};
     stream.clear();
     auto const pos{stream.tellg()};
     _suffix = " @" + std::to_string(static_cast<long long>(pos));
@@ -892,6 +948,8 @@ private:
     {
     case 's':
     case 'r':
+    case 'q':
+    case 't':
       return this->parse_stream(std::move(_input), _suffix);
     case 'p':
       if constexpr (std::is_same_v<Sk, fsk::epsilon>)
@@ -986,7 +1044,7 @@ std::string by_skipper(std::string const &_sk, Ast const &_ast, op const &_op)
   using rep_t = fsk::repetition<cs_t>;
   using seq_t = fsk::sequence<lit_t, rep_t>;
   std::string const rest{_sk.substr(1)};
-  if (_op.entry == 'p' && _sk != "E")
+  if ((_op.entry == 'p' || _op.entry == 'q' || _op.entry == 't') && _sk != "E")
     return "bad-op";
   switch (_sk[0])
   {
@@ -1037,7 +1095,7 @@ std::string handle(std::vector<std::string> const &t)
   std::string const &ce = t[1];
   std::string const &sk = t[2];
   if (ce.size() != 2 || (ce[0] != 'c' && ce[0] != 'w') ||
-      (ce[1] != 'p' && ce[1] != 'h' && ce[1] != 'g' && ce[1] != 's' && ce[1] != 'r'))
+      (ce[1] != 'p' && ce[1] != 'h' && ce[1] != 'g' && ce[1] != 's' && ce[1] != 'r' && ce[1] != 'q' && ce[1] != 't'))
     return "bad-op";
   if (sk.empty() || !ascii_only(sk))
     return "bad-op";
